@@ -761,3 +761,256 @@ Lemma strict_is_dbg w x s :
   U_strict_shl w x s = U_shl true w x s /\ U_strict_shr w x s = U_shr true w x s /\
   I_strict_shl w x s = I_shl true w x s /\ I_strict_shr w x s = I_shr true w x s.
 Proof. repeat split. Qed.
+
+(* ================================================================== *)
+(* 5. rotations                                                        *)
+(* ================================================================== *)
+
+(* rotating an N-bit pattern X left by r places, as arithmetic *)
+Definition rotv (N X r : Z) : Z := (X * 2 ^ r) mod 2 ^ N + X / 2 ^ (N - r).
+
+(* abstract form: the modulus is P * C, rotate by P *)
+Lemma rot_decomp P C H L : 0 < P -> 0 < C -> 0 <= L < C -> 0 <= H < P ->
+  ((H * C + L) * P) mod (P * C) + (H * C + L) / C = L * P + H.
+Proof.
+  intros HP HC HL HH.
+  replace ((H * C + L) * P) with (L * P + H * (P * C)) by ring.
+  rewrite Z.mod_add by nia. rewrite Z.mod_small by nia.
+  rewrite (Z.add_comm (H * C)), Z.div_add by lia. rewrite Z.div_small by lia. lia.
+Qed.
+
+Lemma rot_compose P Q R X : 0 < P -> 0 < Q -> 0 < R -> 0 <= X < P * Q * R ->
+  let Y := (X * P) mod (P * (Q * R)) + X / (Q * R) in
+  (Y * Q) mod (Q * (P * R)) + Y / (P * R) = (X * (P * Q)) mod (P * Q * R) + X / R.
+Proof.
+  intros HP HQ HR HX Y.
+  assert (HQR : 0 < Q * R) by nia.
+  pose proof (Z.div_mod X (Q * R) ltac:(lia)) as E1.
+  pose proof (Z.mod_pos_bound X (Q * R) HQR) as HL.
+  set (H := X / (Q * R)) in *. set (L := X mod (Q * R)) in *.
+  assert (HH : 0 <= H < P).
+  { unfold H. split; [apply Z.div_pos; lia | apply Z.div_lt_upper_bound; nia]. }
+  pose proof (Z.div_mod L R ltac:(lia)) as E2.
+  pose proof (Z.mod_pos_bound L R HR) as HL0.
+  set (L1 := L / R) in *. set (L0 := L mod R) in *.
+  assert (HL1 : 0 <= L1 < Q).
+  { unfold L1. split; [apply Z.div_pos; lia | apply Z.div_lt_upper_bound; nia]. }
+  assert (EY : Y = L * P + H).
+  { unfold Y. fold H. replace X with (H * (Q * R) + L) at 1 by lia.
+    replace (H + 0) with H by lia.
+    pose proof (rot_decomp P (Q * R) H L HP HQR HL HH) as D.
+    replace ((H * (Q * R) + L) / (Q * R)) with H in D; [lia|].
+    rewrite (Z.add_comm (H * (Q * R))), Z.div_add, Z.div_small by lia. lia. }
+  assert (EY' : Y = L1 * (P * R) + (L0 * P + H)) by (rewrite EY, E2; ring).
+  assert (HLo : 0 <= L0 * P + H < P * R) by nia.
+  assert (HPR : 0 < P * R) by nia.
+  rewrite EY'. rewrite (rot_decomp Q (P * R) L1 (L0 * P + H) HQ HPR HLo HL1).
+  assert (EX : X = (H * Q + L1) * R + L0) by (rewrite E1, E2; ring).
+  assert (HHQ : 0 <= H * Q + L1 < P * Q) by nia.
+  assert (HPQ : 0 < P * Q) by nia.
+  rewrite EX. rewrite (rot_decomp (P * Q) R (H * Q + L1) L0 HPQ HR HL0 HHQ). ring.
+Qed.
+
+Lemma rotv_compose N X a b : 0 <= a -> 0 <= b -> a + b <= N -> 0 <= X < 2 ^ N ->
+  rotv N (rotv N X a) b = rotv N X (a + b).
+Proof.
+  intros Ha Hb Hab HX. unfold rotv.
+  pose proof (pow2_pos a Ha) as HP. pose proof (pow2_pos b Hb) as HQ.
+  pose proof (pow2_pos (N - a - b) ltac:(lia)) as HR.
+  set (P := 2 ^ a) in *. set (Q := 2 ^ b) in *. set (R := 2 ^ (N - a - b)) in *.
+  assert (E1 : 2 ^ (N - a) = Q * R) by (unfold Q, R; rewrite <- pow2_split by lia; f_equal; lia).
+  assert (E2 : 2 ^ (N - b) = P * R) by (unfold P, R; rewrite <- pow2_split by lia; f_equal; lia).
+  assert (E3 : 2 ^ (a + b) = P * Q) by (apply pow2_split; lia).
+  assert (E4 : 2 ^ N = P * Q * R).
+  { unfold P, Q, R. rewrite <- !pow2_split by lia. f_equal. lia. }
+  replace (N - (a + b)) with (N - a - b) by lia. fold R.
+  rewrite E1, E2, E3. rewrite E4 in HX.
+  pose proof (rot_compose P Q R X HP HQ HR HX) as C. cbv zeta in C.
+  replace (P * (Q * R)) with (P * Q * R) in C by ring.
+  replace (Q * (P * R)) with (P * Q * R) in C by ring.
+  rewrite E4. exact C.
+Qed.
+
+Lemma rotv_0 N X : 0 <= N -> 0 <= X < 2 ^ N -> rotv N X 0 = X.
+Proof.
+  intros HN HX. unfold rotv. rewrite Z.pow_0_r, Z.mul_1_r, Z.sub_0_r.
+  rewrite Z.mod_small, Z.div_small by lia. lia.
+Qed.
+
+Lemma rotv_full N X : 0 <= N -> 0 <= X < 2 ^ N -> rotv N X N = X.
+Proof.
+  intros HN HX. unfold rotv. rewrite Z.sub_diag, Z.pow_0_r, Z.div_1_r.
+  rewrite Z.mod_mul by lia. lia.
+Qed.
+
+Lemma rotv_range N X r : 0 <= r <= N -> 0 <= X < 2 ^ N -> 0 <= rotv N X r < 2 ^ N.
+Proof.
+  intros Hr HX.
+  pose proof (pow2_pos r ltac:(lia)) as HP. pose proof (pow2_pos (N - r) ltac:(lia)) as HC.
+  assert (E : 2 ^ N = 2 ^ r * 2 ^ (N - r)) by (rewrite <- pow2_split by lia; f_equal; lia).
+  unfold rotv. rewrite E in *. set (P := 2 ^ r) in *. set (C := 2 ^ (N - r)) in *.
+  pose proof (Z.div_mod X C ltac:(lia)) as E1.
+  pose proof (Z.mod_pos_bound X C HC) as HL.
+  assert (HH : 0 <= X / C < P).
+  { split; [apply Z.div_pos; lia | apply Z.div_lt_upper_bound; nia]. }
+  pose proof (rot_decomp P C (X / C) (X mod C) HP HC HL HH) as D.
+  replace (X / C * C + X mod C) with X in D by lia.
+  rewrite D. nia.
+Qed.
+
+(* whole-digit rotation *)
+Lemma rotate_digits_left_ok w n x k : 0 < w -> wf w n x -> (k <= n)%nat ->
+  wf w n (rotate_digits_left x k) /\
+  uval w (rotate_digits_left x k) = rotv (bits w n) (uval w x) (w * Z.of_nat k).
+Proof.
+  intros Hw [Hl HF] Hk. unfold rotate_digits_left. rewrite Hl.
+  assert (Hsl : length (skipn (n - k) x) = k) by (rewrite skipn_length; lia).
+  assert (Hfl : length (firstn (n - k) x) = (n - k)%nat) by (apply firstn_length_le; lia).
+  split.
+  - split; [rewrite app_length; lia|].
+    apply Forall_app; split; [apply Forall_skipn | apply Forall_firstn]; exact HF.
+  - rewrite uval_app, Hsl by lia.
+    rewrite uval_skipn, uval_firstn by (auto; lia).
+    pose proof (Mod_pos w k ltac:(lia)). pose proof (Mod_pos w (n - k) ltac:(lia)).
+    rewrite <- Z.mul_mod_distr_l by lia. rewrite <- Mod_add by lia.
+    replace (k + (n - k))%nat with n by lia.
+    unfold rotv, Mod, bits.
+    replace (w * Z.of_nat n - w * Z.of_nat k) with (w * Z.of_nat (n - k)) by nia.
+    rewrite (Z.mul_comm (uval w x)). lia.
+Qed.
+
+Lemma amount_split_le w n r : 0 < w -> 0 <= r <= bits w n ->
+  0 <= r mod w < w /\ r = w * (r / w) + r mod w /\
+  (Z.to_nat (r / w) <= n)%nat /\ Z.of_nat (Z.to_nat (r / w)) = r / w /\
+  (r mod w <> 0 -> (Z.to_nat (r / w) < n)%nat).
+Proof.
+  intros Hw Hr. unfold bits in Hr.
+  assert (0 <= r / w) by (apply Z.div_pos; lia).
+  pose proof (Z.div_mod r w ltac:(lia)) as E.
+  pose proof (Z.mod_pos_bound r w Hw) as Hm.
+  assert (r / w <= Z.of_nat n) by (apply Z.div_le_upper_bound; lia).
+  split; [exact Hm|]. split; [exact E|]. split; [lia|]. split; [lia|].
+  intros Hne. assert (r / w < Z.of_nat n) by nia. lia.
+Qed.
+
+Theorem unchecked_rotate_left_ok w n x r : 0 < w -> (0 < n)%nat -> wf w n x ->
+  0 <= r <= bits w n ->
+  wf w n (unchecked_rotate_left w x r) /\
+  uval w (unchecked_rotate_left w x r) = rotv (bits w n) (uval w x) r.
+Proof.
+  intros Hw Hn Hwf Hr.
+  destruct (amount_split_le w n r Hw Hr) as (Hbs & Hsplit & Hd & Hdz & Hdlt).
+  unfold unchecked_rotate_left.
+  set (d := Z.to_nat (r / w)) in *. set (bs := r mod w) in *.
+  destruct (rotate_digits_left_ok w n x d Hw Hwf Hd) as (Hwfo & Hvo).
+  set (out := rotate_digits_left x d) in *.
+  destruct (Z.eqb_spec bs 0) as [E|E].
+  - split; [exact Hwfo|]. rewrite Hvo. f_equal. lia.
+  - specialize (Hdlt E).
+    destruct Hwfo as [Hlo HFo].
+    destruct out as [|d0 t] eqn:Eout; [cbn in Hlo; lia|].
+    assert (Hbs' : 0 < bs < w) by lia.
+    assert (Hc0 : 0 <= 0 < 2 ^ bs) by (pose proof (pow2_pos bs); lia).
+    destruct (shl_bits_spec w bs (d0 :: t) 0 Hbs' HFo Hc0) as (HF0 & Hc & He0).
+    set (c := shl_bits_carry w bs (d0 :: t) 0) in *.
+    assert (Hres : match shl_bits w bs (d0 :: t) 0 with [] => [] | dg :: tl => u_or dg c :: tl end
+                   = shl_bits w bs (d0 :: t) c).
+    { cbn [shl_bits]. unfold u_or. rewrite Z.lor_0_r. reflexivity. }
+    rewrite Hres.
+    destruct (shl_bits_spec w bs (d0 :: t) c Hbs' HFo Hc) as (HF1 & _ & He1).
+    destruct (shl_bits_carry_in w bs d0 t c) as (_ & Hcc). rewrite Hcc in He1. fold c in He1.
+    split; [split; [rewrite shl_bits_length; exact Hlo | exact HF1]|].
+    rewrite Hlo in He0, He1. rewrite Z.add_0_r in He0.
+    pose proof (uval_bounds_F w _ ltac:(lia) HF0) as Hb0. rewrite shl_bits_length, Hlo in Hb0.
+    set (Y := uval w (d0 :: t)) in *. set (M := Mod w n) in *.
+    set (r0 := uval w (shl_bits w bs (d0 :: t) 0)) in *.
+    assert (HM : 0 < M) by (apply Mod_pos; lia).
+    assert (Hmod : (Y * 2 ^ bs) mod M = r0).
+    { rewrite <- He0. rewrite (Z.mul_comm M), Z.mod_add by lia. apply Z.mod_small; exact Hb0. }
+    assert (Hdiv : (Y * 2 ^ bs) / M = c).
+    { rewrite <- He0. rewrite (Z.mul_comm M), Z.div_add by lia. rewrite Z.div_small by exact Hb0. lia. }
+    assert (Hv : uval w (shl_bits w bs (d0 :: t) c) = (Y * 2 ^ bs) mod M + (Y * 2 ^ bs) / M) by lia.
+    rewrite Hv.
+    (* Y = rotv BITS X (w*d); the bit part rotates by bs more *)
+    pose proof (uval_bounds w n x ltac:(lia) Hwf) as HX.
+    assert (HN : bits w n = w * Z.of_nat n) by reflexivity.
+    assert (HMp : M = 2 ^ bits w n) by reflexivity.
+    transitivity (rotv (bits w n) Y bs).
+    + unfold rotv. rewrite <- HMp. f_equal.
+      assert (HMs : M = 2 ^ (bits w n - bs) * 2 ^ bs).
+      { rewrite HMp, <- pow2_split by lia. f_equal. lia. }
+      rewrite HMs at 1. apply Z.div_mul_cancel_r; apply Z.neq_sym, Z.lt_neq, pow2_pos; lia.
+    + assert (0 <= w * Z.of_nat d) by nia.
+      assert (w * Z.of_nat d + bs = r) by (rewrite Hdz; lia).
+      rewrite Hvo. rewrite rotv_compose by (try exact HX; lia).
+      f_equal. lia.
+Qed.
+
+Theorem rotate_left_ok w n x k : 0 < w -> (0 < n)%nat -> wf w n x -> 0 <= k ->
+  wf w n (rotate_left w x k) /\
+  uval w (rotate_left w x k) = rotv (bits w n) (uval w x) (k mod bits w n).
+Proof.
+  intros Hw Hn Hwf Hk. unfold rotate_left. rewrite (wf_length _ _ _ Hwf).
+  pose proof (mod_bits_range w n k Hw Hn).
+  apply unchecked_rotate_left_ok; auto. lia.
+Qed.
+
+Theorem rotate_right_ok w n x k : 0 < w -> (0 < n)%nat -> wf w n x -> 0 <= k ->
+  wf w n (rotate_right w x k) /\
+  uval w (rotate_right w x k)
+    = rotv (bits w n) (uval w x) ((bits w n - k mod bits w n) mod bits w n) /\
+  uval w (rotate_right w x k) = rotv (bits w n) (uval w x) (bits w n - k mod bits w n).
+Proof.
+  intros Hw Hn Hwf Hk. unfold rotate_right. rewrite (wf_length _ _ _ Hwf).
+  pose proof (mod_bits_range w n k Hw Hn) as Hm.
+  destruct (unchecked_rotate_left_ok w n x (bits w n - k mod bits w n) Hw Hn Hwf ltac:(lia)) as (H1 & H2).
+  split; [exact H1|]. split; [|exact H2]. rewrite H2.
+  pose proof (uval_bounds w n x ltac:(lia) Hwf) as HX. change (Mod w n) with (2 ^ bits w n) in HX.
+  destruct (Z.eq_dec (k mod bits w n) 0) as [E|E].
+  - rewrite E, Z.sub_0_r, Z.mod_same by lia.
+    rewrite rotv_full, rotv_0 by lia. reflexivity.
+  - rewrite (Z.mod_small (bits w n - k mod bits w n)) by lia. reflexivity.
+Qed.
+
+Theorem rotate_right_left w n x k : 0 < w -> (0 < n)%nat -> wf w n x -> 0 <= k ->
+  rotate_right w (rotate_left w x k) k = x.
+Proof.
+  intros Hw Hn Hwf Hk.
+  destruct (rotate_left_ok w n x k Hw Hn Hwf Hk) as (Hwl & Hvl).
+  destruct (rotate_right_ok w n _ k Hw Hn Hwl Hk) as (Hwr & _ & Hvr).
+  apply (uval_inj w n); [lia | exact Hwr | exact Hwf |].
+  pose proof (mod_bits_range w n k Hw Hn) as Hm.
+  pose proof (uval_bounds w n x ltac:(lia) Hwf) as HX. change (Mod w n) with (2 ^ bits w n) in HX.
+  rewrite Hvr, Hvl, rotv_compose by lia.
+  replace (k mod bits w n + (bits w n - k mod bits w n)) with (bits w n) by lia.
+  apply rotv_full; lia.
+Qed.
+
+Theorem rotate_left_right w n x k : 0 < w -> (0 < n)%nat -> wf w n x -> 0 <= k ->
+  rotate_left w (rotate_right w x k) k = x.
+Proof.
+  intros Hw Hn Hwf Hk.
+  destruct (rotate_right_ok w n x k Hw Hn Hwf Hk) as (Hwr & _ & Hvr).
+  destruct (rotate_left_ok w n _ k Hw Hn Hwr Hk) as (Hwl & Hvl).
+  apply (uval_inj w n); [lia | exact Hwl | exact Hwf |].
+  pose proof (mod_bits_range w n k Hw Hn) as Hm.
+  pose proof (uval_bounds w n x ltac:(lia) Hwf) as HX. change (Mod w n) with (2 ^ bits w n) in HX.
+  rewrite Hvl, Hvr, rotv_compose by lia.
+  replace (bits w n - k mod bits w n + k mod bits w n) with (bits w n) by lia.
+  apply rotv_full; lia.
+Qed.
+
+(* ================================================================== *)
+(* 6. the pre-fix rotate_left (amount & (BITS-1)) is wrong for BITS    *)
+(*    not a power of two                                               *)
+(* ================================================================== *)
+
+Theorem rotl_prefix_refuted :
+  exists w n x k, wf w n x /\
+    uval w (rotate_left_prefix w x k)
+      <> (uval w x * 2 ^ (k mod bits w n)) mod Mod w n + uval w x / 2 ^ (bits w n - k mod bits w n).
+Proof.
+  exists 8, 3%nat, [1; 2; 3], 8. split.
+  - apply wfb_wf. vm_compute. reflexivity.
+  - vm_compute. discriminate.
+Qed.
